@@ -503,6 +503,10 @@ func (idx *Index) ModifyBlocks(label uint64, sc SupervoxelChanges) error {
 			}
 			svc, found := idx.Blocks[zyx]
 			if found && svc != nil {
+				if svc.Counts == nil {
+					// an index posted with an empty entry for this block decodes to a nil map
+					svc.Counts = make(map[uint64]uint32)
+				}
 				oldsz := svc.Counts[supervoxel]
 				newsz := oldsz
 				if delta < 0 && uint32(-delta) > oldsz {
